@@ -16,6 +16,10 @@ META = {
                    "scheduling latency) and negative delay_ms/interval_ms (`as u64`)."),
 }
 
+# --- additions to the level description (rules added after the first version)
+META['level_text'] += " s1: the mapper side of `stop on any key change` -- every acted-on press/release answers Disabled or a new Repeating -- is C09's table, re-run here."
+# --- end additions
+
 NOW = "std::time::Instant::now"
 
 
